@@ -22,17 +22,19 @@ pub fn exec(op: &str, a: &Value) -> Option<Value> {
     let st = &a["st"];
     // operands chosen by the model (OptionsMachine!Operands): half-way between two multiples of the resolved increment
     let o = &a["operands"];
+    let same = a.get("same").and_then(|x| x.as_bool()).unwrap_or(false);   // the receiver is also the argument
+    let (d2, ym2) = if same { ((2020, 1, 15), "2020-01") } else { ((2021, 3, 20), "2021-03") };
     Some(match op {
-        "Opt.PlainDate.until" => run(|| PlainDate::try_new(2020, 1, 15, iso())?.until(&PlainDate::try_new(2021, 3, 20, iso())?, arg_settings(st)?), p_duration),
-        "Opt.PlainDate.since" => run(|| PlainDate::try_new(2020, 1, 15, iso())?.since(&PlainDate::try_new(2021, 3, 20, iso())?, arg_settings(st)?), p_duration),
+        "Opt.PlainDate.until" => run(|| PlainDate::try_new(2020, 1, 15, iso())?.until(&PlainDate::try_new(d2.0, d2.1, d2.2, iso())?, arg_settings(st)?), p_duration),
+        "Opt.PlainDate.since" => run(|| PlainDate::try_new(2020, 1, 15, iso())?.since(&PlainDate::try_new(d2.0, d2.1, d2.2, iso())?, arg_settings(st)?), p_duration),
         "Opt.PlainTime.until" => run(|| arg_time(&o["a"])?.until(&arg_time(&o["b"])?, arg_settings(st)?), p_duration),
         "Opt.PlainTime.since" => run(|| arg_time(&o["a"])?.since(&arg_time(&o["b"])?, arg_settings(st)?), p_duration),
         "Opt.PlainDateTime.until" => run(|| arg_datetime(&o["a"])?.until(&arg_datetime(&o["b"])?, arg_settings(st)?), p_duration),
         "Opt.PlainDateTime.since" => run(|| arg_datetime(&o["a"])?.since(&arg_datetime(&o["b"])?, arg_settings(st)?), p_duration),
         "Opt.Instant.until" => run(|| arg_instant(&o["a"])?.until(&arg_instant(&o["b"])?, arg_settings(st)?), p_duration),
         "Opt.Instant.since" => run(|| arg_instant(&o["a"])?.since(&arg_instant(&o["b"])?, arg_settings(st)?), p_duration),
-        "Opt.PlainYearMonth.until" => run(|| PlainYearMonth::from_str("2020-01")?.until(&PlainYearMonth::from_str("2021-03")?, arg_settings(st)?), p_duration),
-        "Opt.PlainYearMonth.since" => run(|| PlainYearMonth::from_str("2020-01")?.since(&PlainYearMonth::from_str("2021-03")?, arg_settings(st)?), p_duration),
+        "Opt.PlainYearMonth.until" => run(|| PlainYearMonth::from_str("2020-01")?.until(&PlainYearMonth::from_str(ym2)?, arg_settings(st)?), p_duration),
+        "Opt.PlainYearMonth.since" => run(|| PlainYearMonth::from_str("2020-01")?.since(&PlainYearMonth::from_str(ym2)?, arg_settings(st)?), p_duration),
         "Opt.Duration.round" => run(|| {
             // calendar units need a reference date (C09): supply one exactly when the option set names a calendar unit
             let cal = |k: &str| matches!(js::opt_s(st, k), Some("week") | Some("month") | Some("year"));
